@@ -28,6 +28,7 @@ func checkC08(r *Report, p *Program) {
 	r07_tables(r, p)
 	r09_tables(r, p, "R08.6")
 	r09_recordSet(r, p, "R08.7")
+	conditionTables(r, p, "R08.8")
 }
 
 // ---- key domains ----
